@@ -15,7 +15,14 @@ from vlib import corpus, e2e, engine, gen, netsynth as ns, outparse, scene
 
 def junk_block(rng, e, allow_idb=True):
     # (an interface description in front of the packets' own would renumber the interfaces: only behind it)
-    k = rng.choice(["nrb", "isb", "custom", "custom-nocopy", "unknown"] + (["idb-unused"] if allow_idb else []))
+    k = rng.choice(["nrb", "isb", "custom", "custom-nocopy", "unknown", "foreign-secrets"] + (["idb-unused"] if allow_idb else []))
+    if k == "foreign-secrets":
+        # a decryption-secrets block for another protocol (pcapng section 4.7 registers ZigBee network and link keys - 16 binary octets -, WireGuard key logs - text -,
+        # and leaves the rest open): secrets, but not TLS key-log text
+        st, data = rng.choice([(0x5A4E574B, rng.randbytes(16)), (0x5A4E574B, bytes([0x80 | rng.randrange(128)]) + rng.randbytes(15)), (0x5A415053, rng.randbytes(16) + rng.randbytes(4)),
+                               (0x57474B4C, b"LOCAL_STATIC_PRIVATE_KEY = " + rng.randbytes(33).hex().encode()[:44] + b"\nLOCAL_EPHEMERAL_PRIVATE_KEY = " + rng.randbytes(33).hex().encode()[:44] + b"\n"),
+                               (rng.choice([0x53534850, 0x4F504355, 0x7F000001]), rng.randbytes(rng.randrange(1, 90)))])
+        return (10, struct.pack(e + "II", st, len(data)) + data + b"\x00" * ((-len(data)) % 4))
     if k == "idb-unused":
         # a second interface no packet refers to, with its own resolution and offset: unrelated to the packets of interface 0
         opts = ns._opt(2, b"lo", e) + ns._opt(9, bytes([rng.choice([3, 9, 0x80 | 10])]), e) + (ns._opt(14, struct.pack(e + "q", 7200), e) if rng.random() < 0.5 else b"") + ns._opt(0, b"", e)
